@@ -515,8 +515,6 @@ def replay_ready(fl, FA, vals=None, seed=0, budget=200, exclude_known=False, **k
                      ("1-row matrix", lambda: setattr(e, "input_values", np.array([row]))),
                      ("vector", lambda: setattr(e, "input_values", np.array(row)))]
             for fname, setter in forms:
-                if fname != "floats" and type(rb.activation).__name__ == "Proportional":
-                    continue      # recorded separately (Proportional's in-place sum with array degrees)
                 e.restart()
                 for x in removed:
                     pass
